@@ -291,7 +291,10 @@ func dateParse(date string) float64 {
 		date = fmt.Sprintf("%04d%s", standIn, match[2])
 	} else if match := matchDateLongYear.FindStringSubmatch(date); match != nil {
 		// What toString and toUTCString print for years outside 0..9999.
-		year, _ := strconv.Atoi(match[2])
+		year, err := strconv.Atoi(match[2])
+		if err != nil || year < -300000 || year > 300000 {
+			return math.NaN() // no time value has such a year (15.9.1.1)
+		}
 		if year < 0 || year > 9999 {
 			standIn := 2000 + ((year%400)+400)%400
 			yearShift = year - standIn
